@@ -369,7 +369,7 @@ def route_case(src: str, dotall: bool, tag_name: str):
             fake = SimpleNamespace(source=src, origin=Origin(UNKNOWN_SOURCE))
             dbg = Template.get_exception_info(fake, e, tok)
             exp = ("TSE", str(e), (tok.token_type.name, tok.contents, tok.position, tok.lineno), dbg)
-        info["cls"] = exp[0] if exp[0] == "ok" else re.sub(r"\d+", "N", exp[1])[:40]
+        info["cls"] = exp[0] if exp[0] == "ok" else re.sub(r"\d+", "N", exp[1]).split(":")[0][:40]
     else:
         info["cls"] = "agnostic"
     for dbg_flag in (True, False):
